@@ -80,6 +80,12 @@ def gen_ops(tier, rng):
             for s in range(d + p):
                 for off in (offs if tier == "thorough" or size > 128 else list(offs)[::3]):
                     ops.append((f"ver {fam} - {d} {p} {size} {seed} {s} {off} {rng.randrange(1, 256)}", {"cat": "ver-flip", "d": d}))
+    # the premise of the general Leopard theorems (C04_leo8/16_encode_all: the MODEL's tables carry the LCH code for every
+    # configuration) is that the running package holds the model's tables: every entry of log / exp / skew, both fields
+    for t in ["log", "exp", "skew"]:
+        ops.append((f"tab leo8 {t} 0", {"cat": "tables-leo8", "fam": "tab", "d": 2, "p": 2}))
+        for blk in range(256):
+            ops.append((f"tab leo16 {t} {blk}", {"cat": "tables-leo16", "fam": "tab", "d": 2, "p": 2}))
     return ops
 
 
